@@ -246,7 +246,7 @@ func checkC07(c AxisCase) (bool, *Violation) {
 		}
 	}
 	type ctlPair struct{ pos, neg [2]byte }
-	pairs := map[uint16]ctlPair{}
+	pairs := map[string]ctlPair{}
 	for i := range m.Axes {
 		a := &m.Axes[i]
 		off, offNeg := 0, 0
@@ -256,12 +256,12 @@ func checkC07(c AxisCase) (bool, *Violation) {
 		if a.OffNeg != nil {
 			offNeg = *a.OffNeg
 		}
-		pairs[a.Code] = ctlPair{[2]byte{byte((base + off) % 16), byte(*a.CC)}, [2]byte{byte((base + offNeg) % 16), byte(*a.CCNeg)}}
+		pairs[a.Sub+"|"+fmt.Sprint(a.Code)] = ctlPair{[2]byte{byte((base + off) % 16), byte(*a.CC)}, [2]byte{byte((base + offNeg) % 16), byte(*a.CCNeg)}}
 	}
-	lastSide := map[uint16]int{}
-	lastPre := map[uint16]*big.Rat{}
-	stale := map[uint16]bool{}
-	crossings := map[uint16]int{}
+	lastSide := map[string]int{}
+	lastPre := map[string]*big.Rat{}
+	stale := map[string]bool{}
+	crossings := map[string]int{}
 	nontrivial := false
 	for i := range w.Steps {
 		ws := &w.Steps[i]
@@ -281,7 +281,8 @@ func checkC07(c AxisCase) (bool, *Violation) {
 		}
 		dz := effectiveDeadzone(m, a)
 		sh := exactShape(a, dz, ws.Step.Val)
-		p := pairs[a.Code]
+		ak := a.Sub + "|" + fmt.Sprint(a.Code)
+		p := pairs[ak]
 		where := func() string {
 			return fmt.Sprintf("%s CC %d/%d, raw %d (exact shaped position %.6f), learning=%v, step %d", axisLabel(a, dz), *a.CC, *a.CCNeg, ws.Step.Val, ratF(sh.S), learning, i)
 		}
@@ -319,21 +320,21 @@ func checkC07(c AxisCase) (bool, *Violation) {
 		// at most one side non-zero, for every axis, after every event
 		for code, q := range pairs {
 			if rx.CC[q.pos] > 0 && rx.CC[q.neg] > 0 {
-				return true, violation("C07", "both-sides-nonzero", "", "%s: after this event the receiver has both controllers of axis %d non-zero (%d and %d)", where(), code, rx.CC[q.pos], rx.CC[q.neg])
+				return true, violation("C07", "both-sides-nonzero", "", "%s: after this event the receiver has both controllers of axis %s non-zero (%d and %d)", where(), code, rx.CC[q.pos], rx.CC[q.neg])
 			}
 		}
 		// An event that transmits nothing leaves the receiver as it was. That is legitimate when CC-learning
 		// suppressed it (the receiver is then stale until the next transmission) or when it repeats the previous
 		// shaped position; in every other case the receiver must be on the side of the stick after the event.
-		prevPre, seenPre := lastPre[a.Code]
+		prevPre, seenPre := lastPre[ak]
 		repeatsPrev := (seenPre && prevPre.Cmp(sh.PreFlip) == 0) || (!seenPre && sh.PreFlip.Sign() == 0)
-		lastPre[a.Code] = sh.PreFlip
+		lastPre[ak] = sh.PreFlip
 		if len(ws.Res.Out) > 0 {
-			stale[a.Code] = false
+			stale[ak] = false
 		} else if learning && !half {
-			stale[a.Code] = true
+			stale[ak] = true
 		}
-		silentButMoved := len(ws.Res.Out) == 0 && !repeatsPrev && !stale[a.Code] && !(learning && !half) && side != 2
+		silentButMoved := len(ws.Res.Out) == 0 && !repeatsPrev && !stale[ak] && !(learning && !half) && side != 2
 		if silentButMoved {
 			switch {
 			case side > 0 && rx.CC[p.neg] != 0:
@@ -353,15 +354,15 @@ func checkC07(c AxisCase) (bool, *Violation) {
 			case side == 0 && (rx.CC[p.pos] != 0 || rx.CC[p.neg] != 0):
 				return true, violation("C07", "centre-not-zero", "", "%s: stick is at rest but the controllers are %d / %d", where(), rx.CC[p.pos], rx.CC[p.neg])
 			}
-			if ls, ok := lastSide[a.Code]; ok && ls != 0 && side != 0 && ls != side {
-				crossings[a.Code]++
+			if ls, ok := lastSide[ak]; ok && ls != 0 && side != 0 && ls != side {
+				crossings[ak]++
 				nontrivial = true
 				classify("centre crossed in one jump")
-				if crossings[a.Code] == 3 {
+				if crossings[ak] == 3 {
 					classify(">=3 crossings on one axis")
 				}
 			}
-			lastSide[a.Code] = side
+			lastSide[ak] = side
 			if learning {
 				nontrivial = true
 				classify("transmitted while learning")
